@@ -193,9 +193,16 @@ func (fr *former) form(e ast.Expr, pol bool, at Point) *Form {
 			for _, k := range []*Form{l, r} {
 				if k.Op == op {
 					out.Kids = append(out.Kids, k.Kids...)
+				} else if k.Op != 'a' && len(k.Kids) == 0 {
+					// the other connective with no operands: its identity is this
+					// connective's absorbing element (true in an or, false in an and)
+					return &Form{Op: k.Op}
 				} else {
 					out.Kids = append(out.Kids, k)
 				}
+			}
+			if len(out.Kids) == 1 {
+				return out.Kids[0]
 			}
 			return out
 		case token.EQL, token.NEQ:
@@ -529,6 +536,9 @@ func (g *Graph) DominatedAny(site Point, pats []string, assume ...string) (bool,
 			if !globAny(a.S) {
 				continue
 			}
+			if strings.HasPrefix(a.S, "istype(") {
+				continue // a type-switch arm is lexical: later stores to the subject do not leave it
+			}
 			for _, v := range a.Vars {
 				for _, d := range g.DefsOf(v) {
 					if d.Kind == DefTypeSwitch || d.Kind == DefParam {
@@ -581,4 +591,20 @@ func (g *Graph) DominatedFrom(from, site Point, pats []string) bool {
 		}
 	}
 	return !g.Reachable(from, site, cut, nil)
+}
+
+// VarForms returns the normal forms under which variable v may appear in
+// atoms: its local form and the expansion of each of its definitions.
+func (g *Graph) VarForms(v *types.Var) []string {
+	out := []string{"local:" + v.Name() + "<" + TypeStr(v.Type()) + ">"}
+	if s, ok := g.Fn.paramName(v); ok {
+		out = append(out, s)
+	}
+	for _, d := range g.DefsOf(v) {
+		n := normalizer{f: g.Fn}
+		if s, ok := n.defExpr(d); ok {
+			out = append(out, s)
+		}
+	}
+	return out
 }
